@@ -45,6 +45,16 @@ func (C13) Gen(r *core.Rng, tier string, emit func(string)) {
 		as := randAdds(r, r.Intn(14), true)
 		emit(fmt.Sprintf("resolve %d 0 %s G", r.Intn(2), fmtAdds(as)))
 	}
+	// equal contents whose tile IDs are a multiple of 2^32 (plus the run length) apart: not a continuation of the run
+	for _, m := range []uint64{1, 2, 5} {
+		for _, rl := range []uint32{1, 3} {
+			x := r.Bytes(2 + r.Intn(4))
+			id := uint64(r.Intn(1000))
+			as := []addReq{{id, rl, x}, {id + uint64(rl) + m<<32, 1, x}, {id + uint64(rl) + m<<32 + 1, 2, x}}
+			emit(fmt.Sprintf("resolve 1 0 %s G", fmtAdds(as)))
+			emit(fmt.Sprintf("resolve 0 0 %s G", fmtAdds(as)))
+		}
+	}
 	// cluster writes its directories through finalize(): entry counts whose single root directory lands around
 	// the 16 KiB boundary (header + root must end within the first 16 384 bytes)
 	{
@@ -83,6 +93,12 @@ func (C13) Gen(r *core.Rng, tier string, emit func(string)) {
 		root := buildTree(r, ts.entries, depth, 1+r.Intn(9), r.Chance(1, 3))
 		ba := assembleArchive(root, ts, ic, baseHeader(), clusterMeta)
 		tt, tc := 1+r.Intn(5), 1+r.Intn(4)
+		if r.Chance(1, 6) {
+			tc = 0 // compression not declared: cluster keeps what the input says, whatever it says
+		}
+		if r.Chance(1, 10) {
+			tt = 0
+		}
 		emit(fmt.Sprintf("cluster %d %s %d %d %s %s", r.Intn(2), compName(ic), tt, tc, hexs(ts.data), ba.dirsLine()))
 	}
 }
